@@ -169,15 +169,23 @@ def parse(
     logging.debug(f"Parsing packet file: {packet_file}")
     logging.debug(f"Using packet definition file: {definition_file}")
 
-    with open(packet_file, "rb") as f:
-        packets = list(
-            XtcePacketDefinition.from_xtce(
-                definition_file
-            ).packet_generator(
-                f,
-                skip_header_bytes=skip_header_bytes
+    try:
+        with open(packet_file, "rb") as f:
+            packets = list(
+                XtcePacketDefinition.from_xtce(
+                    definition_file
+                ).packet_generator(
+                    f,
+                    skip_header_bytes=skip_header_bytes
+                )
             )
-        )
+    except Exception as e:
+        # Data that the definition cannot decode (e.g. a packet shorter than its container needs) or a definition that
+        # cannot be loaded is a user-facing error, not a crash: report it without a traceback
+        logging.debug("Parsing failed", exc_info=True)
+        raise click.ClickException(
+            f"Failed to parse {packet_file} using {definition_file}: {type(e).__name__}: {e}"
+        ) from e
 
     if packet is not None:
         if packet >= len(packets) or packet < -len(packets):
